@@ -66,9 +66,14 @@ def render_node(n, by_id, headers):
     inc = []
     if n.get('include') is not None:
         inc.append(f'#include "{headers[n["include"]]["name"]}"')
+    semi = n.get('semicolon_use') and uses
     if n['kind'] == 'module':
         mn = spell(nm, n['modspell'])
-        lines.append(f'module {mn}')
+        if semi:
+            lines.append(f'module {mn}; {uses[0].strip()}')
+            uses = uses[1:]
+        else:
+            lines.append(f'module {mn}')
         lines += uses
         lines.append('  implicit none')
         lines.append(f'  integer :: v{n["id"]} = {n["id"]}')
@@ -80,7 +85,11 @@ def render_node(n, by_id, headers):
         lines.append(f'  end subroutine r{n["id"]}')
         lines.append(f'end module {mn}')
     else:
-        lines.append(f'subroutine {nm}(x)')
+        if semi:
+            lines.append(f'subroutine {nm}(x); {uses[0].strip()}')
+            uses = uses[1:]
+        else:
+            lines.append(f'subroutine {nm}(x)')
         lines += uses
         lines.append('  implicit none')
         lines.append('  integer, intent(inout) :: x')
@@ -132,7 +141,7 @@ def closure(roots, deps):
 # ---------------------------------------------------------------------------
 
 _re_use = re.compile(r'^\s*use\b\s*(?:,\s*(\w+)\s*)?(?:::)?\s*(\w+)', re.I)
-_re_module = re.compile(r'^\s*module\s+(\w+)\s*$', re.I)
+_re_module = re.compile(r'^\s*module\s+(?!procedure\b)(\w+)\s*$', re.I)
 _re_inc = re.compile(r'^\s*#include\s+"([^"]+)"')
 
 
@@ -219,7 +228,8 @@ def _compile(st, args):
     text = src.read_text()
     used = []
     defined = []
-    lines = text.splitlines()
+    lines = [part for raw in text.splitlines()
+             for part in (raw.split(';') if not raw.lstrip().startswith(('#', '!')) else [raw])]
     i = 0
     while i < len(lines):
         line = lines[i]
@@ -228,7 +238,7 @@ def _compile(st, args):
         if m:
             for d in incdirs + [src.parent]:
                 if (d / m.group(1)).exists():
-                    lines[i:i] = (d / m.group(1)).read_text().splitlines()
+                    lines[i:i] = [part for raw in (d / m.group(1)).read_text().splitlines() for part in raw.split(';')]
                     break
             else:
                 st.ev('cfail', obj)
@@ -365,7 +375,8 @@ class BuildEngine(Engine):
                      'only': g.flip('only')} for t in sorted(tos)]
             nodes.append({'id': i, 'kind': kind, 'uses': uses, 'stemspell': g.choose('stem', 3),
                           'modspell': g.choose('modsp', 4), 'ext': g.pick('ext', ['.f90', '.F90', '.f90']),
-                          'include': None, 'intrinsic': g.flip('intr', 1, 5), 'salt': 0})
+                          'include': None, 'intrinsic': g.flip('intr', 1, 5), 'salt': 0,
+                          'semicolon_use': g.flip('semiuse', 1, 6)})
         headers = []
         if g.flip('hdr', 1, 3):
             for hid in range(g.randint('nh', 1, 2)):
@@ -389,7 +400,10 @@ class BuildEngine(Engine):
         rebuild = None
         if fclass == 'none' and g.flip('rebuild', 1, 4):
             rebuild = {'edits': sorted(g.sample('edits', built, g.randint('nedits', 1, min(3, len(built))))),
-                       'reuse': g.pick('reuse', ['lib', 'lib', 'recreate'])}
+                       'reuse': g.pick('reuse', ['lib', 'lib', 'recreate']), 'first_fails': None}
+            if g.flip('firstfails', 1, 3):
+                # the first build breaks on one (edited) object, the source is repaired, the same Lib rebuilt
+                rebuild['first_fails'] = node_name(nodes[g.pick('ffobj', rebuild['edits'])])
         scen = {
             'rebuild': rebuild,
             'nodes': nodes, 'headers': headers, 'objs': objs,
@@ -532,9 +546,9 @@ class BuildEngine(Engine):
         def paths():
             return [src / (file_stem(by_id[i]) + by_id[i]['ext']) for i in scenario['objs']]
 
-        def one(builder, lib):
+        def one(builder, lib, fail=scenario['fail']):
             global STATE  # pylint: disable=global-statement
-            st = BuildState(run, tag, fail=scenario['fail'], stall=scenario['stall'], record=record)
+            st = BuildState(run, tag, fail=fail, stall=scenario['stall'], record=record)
             STATE = st
             err = None
             try:
@@ -553,9 +567,9 @@ class BuildEngine(Engine):
             builder = Builder(source_dirs=src, include_dirs=inc, build_dir=bdir, workers=workers,
                               logger=self.logger)
             lib = Lib(name='sim', objs=[Obj(source_path=p) for p in paths()], shared=scenario['shared'])
-            err = one(builder, lib)
             rb = scenario.get('rebuild')
-            if rb and err is None:
+            err = one(builder, lib, fail=(rb or {}).get('first_fails') or scenario['fail'])
+            if rb and (err is None or rb.get('first_fails')):
                 if record:
                     run.probe('rebuild_steps')
                     run.event('edit', tuple(rb['edits']))
@@ -568,6 +582,20 @@ class BuildEngine(Engine):
                     # rebuilding in the same process relies on the documented reset
                     # only where Loki offers one -- none for the text, so it is not part
                     # of the oracle (content is judged through the stub's reads)
+                # what the documented mtime rule says must be compiled now: no object file yet, or the
+                # source was written later than the object file
+                expect = []
+                for n in scenario['nodes']:
+                    srcf = src / (file_stem(n) + n['ext'])
+                    of = bdir / f'{node_name(n)}.o'
+                    if not of.exists() or srcf.stat().st_mtime >= of.stat().st_mtime:
+                        expect.append(node_name(n))
+                # ... unless the library file is newer than the sources of all objects listed for it, in which
+                # case the documented library-level rule skips the whole build
+                libf = bdir / ('libsim.so' if scenario['shared'] else 'libsim.a')
+                if libf.exists() and libf.stat().st_mtime > max(p.stat().st_mtime for p in paths()):
+                    expect = []
+                flow.expect_rebuild = expect
                 if rb['reuse'] == 'recreate':
                     builder = Builder(source_dirs=src, include_dirs=inc, build_dir=bdir, workers=workers,
                                       logger=self.logger)
@@ -576,6 +604,8 @@ class BuildEngine(Engine):
         finally:
             FLOW = None
             STATE = None
+        if len(steps) > 1:
+            steps[1][0].expect = getattr(flow, 'expect_rebuild', None)
         return steps
 
     def execute(self, scenario, run):
@@ -618,18 +648,27 @@ class BuildEngine(Engine):
             run.violate('outcome-differs', f'serial flow ran {len(ref)} build steps, parallel {len(par)}')
         for k, ((rst, rerr), (st, err)) in enumerate(zip(ref, par)):
             # same library as a serial build
+            if k > 0 and (scenario.get('rebuild') or {}).get('first_fails'):
+                continue        # how far the failed first build got legitimately differs between serial and parallel
             if err is None and rerr is None and st.lib != rst.lib:
                 run.violate('lib-differs', f'build step {k}: parallel library {st.lib!r} != serial library '
                                            f'{rst.lib!r}')
             if (err is None) != (rerr is None) and not scenario['stall'] and \
                     not isinstance(err, (pool.SimDeadlock, pool.SimStepCap)):
                 run.violate('outcome-differs', f'build step {k}: serial build: {rerr!r}; parallel build: {err!r}')
-            if k > 0 and err is None and rerr is None:
-                cs = sorted({o for kind, o in rst.events if kind == 'cstart'})
-                cp = sorted({o for kind, o in st.events if kind == 'cstart'})
-                if cs != cp:
-                    run.violate('rebuild-set-differs', f'rebuild after editing {scenario["rebuild"]["edits"]}: '
-                                                       f'serial recompiled {cs}, parallel recompiled {cp}')
+        first_fails = bool((scenario.get('rebuild') or {}).get('first_fails'))
+        deps_ = model_deps(scenario)
+        reach = {node_name(n) for n in scenario['nodes'] if n['id'] in closure(scenario['objs'], deps_)}
+        for tag, flowsteps in (('serial', ref), ('par', par)):
+            if len(flowsteps) > 1 and flowsteps[1][1] is None and getattr(flowsteps[1][0], 'expect', None) is not None:
+                st2 = flowsteps[1][0]
+                got = sorted({o for kind, o in st2.events if kind == 'cstart'})
+                want = sorted(set(st2.expect) & reach)
+                if got != want:
+                    run.violate('rebuild-set-wrong', f'[{tag}] rebuild after editing {scenario["rebuild"]["edits"]}'
+                                                     f'{" (first build had failed)" if first_fails else ""}: objects '
+                                                     f'whose source is newer than their object file (or that have '
+                                                     f'none): {want}; recompiled: {got}')
 
     # -- oracle -----------------------------------------------------------------
     def _oracle(self, scenario, run, sim, st, err, tag, step=0):
@@ -645,8 +684,8 @@ class BuildEngine(Engine):
                 starts.setdefault(obj, []).append(k)
             elif kind == 'cend':
                 ends.setdefault(obj, []).append(k)
-        faulty = bool(scenario['fail'] or scenario['stall']) and tag == 'par' or \
-            (bool(scenario['fail']) and tag == 'serial')
+        fail = st.fail
+        faulty = bool(fail or scenario['stall']) and tag == 'par' or (bool(fail) and tag == 'serial')
         if isinstance(err, pool.SimStepCap):
             raise HarnessError(f'step cap hit in build simulation: {err}')
         if isinstance(err, pool.SimDeadlock):
@@ -698,7 +737,7 @@ class BuildEngine(Engine):
             if not faulty:
                 run.violate('build-failed', f'[{tag}] fault-free build raised {type(err).__name__}: '
                                             f'{str(err)[:300]}')
-            elif scenario['fail'] and not scenario['stall']:
+            elif fail and not scenario['stall']:
                 if not isinstance(err, subprocess.CalledProcessError):
                     run.violate('wrong-error', f'[{tag}] injected compile error surfaced as {err!r}')
             elif scenario['stall'] and not isinstance(err, (TimeoutError, subprocess.CalledProcessError)):
